@@ -393,3 +393,7 @@ impl<T: TransportFallback> TransportCost for TimeAwareMatrixTransportCost<T> {
         self.size
     }
 }
+
+#[cfg(kani)]
+#[path = "/verif/kani/vrp-core/costs_proofs.rs"]
+mod verif_kani_proofs;
